@@ -92,7 +92,7 @@ def main():
     cases = []
     for _ in range(n):
         c = gen.gen_solver_case(ck.rng, ck.tier, strats=("filter", "fixedinterval", "fixedpoint"),
-                                calibs=("mle", "mle_nocorr", "dyn", "dyn_relin"), qmax=3 if quick else 5, max_steps=4 if quick else 7)
+                                calibs=("mle", "mle_nocorr", "dyn", "dyn_relin"), qmax=3, max_steps=4 if quick else 6)
         # wide base scales
         e = ck.rng.choice([-20, -10, -3, 0, 3, 10, 20])
         if c["kind"] == "iso":
